@@ -113,14 +113,40 @@ func main() {
 	case "fidelity":
 		// the repository's own fast tests against the instrumented build, free-running mode
 		pat := "TestInsert$|TestInsertDuplicates|TestDelete$|TestLoadStoreDisk|TestLoadDeltaStoreDisk|TestVisitor|TestDiskCorruption|TestCloseWithActiveIterators|TestNodeList|TestFullScan|TestVisitorError|TestStoreDiskShutdown|TestSnapshotStats|TestBuilder|TestMerger|TestNodeDCAS|TestGetRangeSplitItems|TestSimple|TestInsertFastHT|TestDeleteFastHT1|TestLargeConflicts"
-		cmd := exec.Command("go", "test", "-overlay", overlay, "-vet=off", "-count=1", "-run", pat, ".", "./skiplist", "./nodetable")
-		cmd.Dir = repoDir
-		cmd.Env = env()
-		cmd.Stdout = os.Stdout
-		cmd.Stderr = os.Stderr
-		if err := cmd.Run(); err != nil {
-			fmt.Println("ERROR: fidelity tests failed on the instrumented build:", err)
-			code = 2
+		for _, a := range pass[1:] {
+			if a == "--quick" {
+				pat = "TestInsert$|TestDelete$|TestNodeList|TestVisitorError|TestCloseWithActiveIterators|TestBuilder|TestMerger|TestNodeDCAS|TestGetRangeSplitItems|TestSimple|TestInsertFastHT|TestDeleteFastHT1"
+			}
+		}
+		// build the test binaries against the overlay, run them from a scratch directory (the repository's
+		// tests write backup files into their working directory; /repo must stay untouched)
+		for _, pkg := range []string{".", "./skiplist", "./nodetable"} {
+			name := filepath.Base(filepath.Join(repoDir, pkg)) + ".test"
+			bin := filepath.Join(work, name)
+			b := exec.Command("go", "test", "-overlay", overlay, "-vet=off", "-c", "-o", bin, pkg)
+			b.Dir = repoDir
+			b.Env = env()
+			b.Stdout = os.Stderr
+			b.Stderr = os.Stderr
+			if err := b.Run(); err != nil {
+				fmt.Println("ERROR: cannot build the instrumented tests of", pkg, ":", err)
+				code = 2
+				break
+			}
+			scratch := filepath.Join(work, "run-"+name)
+			os.MkdirAll(scratch, 0755)
+			t := exec.Command(bin, "-test.count=1", "-test.run", pat)
+			t.Dir = scratch
+			t.Env = env()
+			out, err := t.CombinedOutput()
+			lines := strings.Split(strings.TrimSpace(string(out)), "\n")
+			fmt.Println("fidelity", pkg, ":", lines[len(lines)-1])
+			if err != nil {
+				os.Stderr.Write(out)
+				fmt.Println("ERROR: fidelity tests failed on the instrumented build of", pkg, ":", err)
+				code = 2
+				break
+			}
 		}
 	default:
 		args := pass
